@@ -152,6 +152,10 @@ package browse
 //@ func browseParse
 //@   modifies Dispenser.cursor, Dispenser.nesting
 //@   requires c != nil
+//@   // C02 "no hidden file is ever listed": the listing's file server hides EVERYTHING the site hides (the whole list, not a
+//@   // narrowed copy) and uses the site's index names
+//@   at call fieldstore:Config.Fs before [the_listing_hides_all_the_site_hides] arg1.Hide == cfg.HiddenFiles && arg1.IndexPages == cfg.IndexPages
+//@   at call fieldstore:FileServer.Hide before [every_hide_list_stored_is_the_sites_whole_list] arg1 == cfg.HiddenFiles
 //@   at call fieldstore:Config.ArchiveTypes before [only_known_archive_types_are_configured] forall(k, 0, len(arg1), knownArchive(arg1[k]))
 //@   loop 1 invariant forall(k, 0, len(ArchiveTypes), knownArchive(ArchiveTypes[k]))
 //@   loop 2 invariant forall(k, 0, len(ArchiveTypes), knownArchive(ArchiveTypes[k]))
